@@ -2,12 +2,19 @@
 # mk_sandbox.sh: (re)creates /var/tmp/sb = a scratch worktree of /repo (HEAD) + a copy of the committed-or-not
 # /verif tree whose paths point at that worktree. Seeds are applied there, so /repo stays clean while
 # long checks run against it. Remove with: tools/mk_sandbox.sh rm
+# Refresh the /verif copy of an existing sandbox (after editing checks) with: tools/mk_sandbox.sh sync
+# (never rsync by hand: without the path rewrites below seeds_regress.sh would run the real /verif on the clean /repo).
 SB=${SB:-/var/tmp/sb}
+if [ "${1:-}" = sync ]; then
+  [ -d $SB/repo ] || { echo "no sandbox at $SB"; exit 2; }
+  git -C $SB/repo checkout -q -- .
+else
 if [ -d $SB/repo ]; then git -C /repo worktree remove --force $SB/repo 2>/dev/null; fi
 rm -rf $SB
 [ "${1:-}" = rm ] && { git -C /repo worktree prune; exit 0; }
 mkdir -p $SB
 git -C /repo worktree add -q --detach $SB/repo HEAD || exit 2
+fi
 rsync -a --exclude .cache --exclude replays --exclude .git /verif/ $SB/verif/
 cd $SB/verif
 sed -i "s#=> /repo#=> $SB/repo#" engine/go.mod
